@@ -255,6 +255,20 @@ def h_consistent(ctx, skeleton, script=None, sim=None, n=2, args=None):
                 check_graph(ctx, objs, "after set/reset toggles", chains=False)
 
 
+def h_consistent_builders(ctx, kind, choice, edit=True):
+    """graph consistency of systems made with the builder classes, after building and after editing a builder input"""
+    from harness import c17
+    env = c17.builder_env(ctx, kind)
+    A = c17.builder_system(ctx, env, kind, choice)
+    V.observe_system(ctx, A)
+    check_graph(ctx, A, "after building")
+    if edit:
+        name, param, unit, (lo, hi, nice) = c17.BUILDER_EDITS[kind]
+        new = env.fresh(f"new.{name}.{param}", lo=lo, hi=hi, lo_strict=True, nice=nice)
+        setattr(A[name], param, SourceValue(new * u(unit)))
+        check_graph(ctx, A, f"after editing {name}.{param}")
+
+
 class _Mock(ModelingObject):
     def __init__(self, name):
         super().__init__(name)
@@ -317,7 +331,7 @@ def h_mock_dags(ctx, nodes):
     ctx.count("mock_dags", count)
 
 
-HARNESSES = {"complete": h_complete, "consistent": h_consistent, "mock_dags": h_mock_dags}
+HARNESSES = {"complete": h_complete, "consistent": h_consistent, "mock_dags": h_mock_dags, "consistent_builders": h_consistent_builders}
 L = lambda o, a, t: dict(k="link", obj=o, attr=a, target=t)  # noqa
 
 
@@ -330,6 +344,9 @@ def plan(tier, seed):
          ("mock_dags", dict(nodes=3)), ("mock_dags", dict(nodes=4)), ("mock_dags", dict(nodes=5))]
     for sk in ("T1", "T5", "T7", "T9", "TX"):
         p.append(("consistent", dict(skeleton=sk)))
+    from harness.c17 import BUILDER_CASES
+    for kind, choice in BUILDER_CASES:
+        p.append(("consistent_builders", dict(kind=kind, choice=choice)))
     p.append(("complete", dict(skeleton="TX", only=["srv", "st", "job", "job3", "net", "up", "up2"]), dict(max_paths=300, max_seconds=220)))
     for sc in ([num("job", "data_transferred")], [num("job", "request_duration")], [num("srv", "ram")],
                [num("step", "user_time_spent")], [num("st", "data_storage_duration")]):
